@@ -90,7 +90,23 @@ type vfPayloadX struct {
 	src, dst       string
 	stack          []uint64 // pushed (next-hop) / popped (label entry) labels, in order
 	topDecap       int32    // IPv4 / IPv6 entry decapsulate-header (defined numbers only)
+	eh             []vfEncapD // encap headers of a next-hop (distinct concrete indices)
 }
+
+// vfEncapD: one encapsulation header as on the wire: MPLS (label stack, traffic class) or UDPv6.
+type vfEncapD struct {
+	idx    uint64 // concrete
+	typ    int32  // defined type number
+	labels []uint64
+	hasTC  bool
+	tc     uint64
+	hasDSCP, hasDPort, hasSPort, hasTTL bool
+	dscp, dport, sport, ttl             uint64
+	hasSIP, hasDIP                      bool
+	sip, dip                            string
+}
+
+func (h *vfEncapD) isUDP() bool { return h.hasDSCP || h.hasDPort || h.hasSPort || h.hasTTL || h.hasSIP || h.hasDIP }
 
 // invalid: the schema rejects the payload.
 func (x *vfPayloadX) invalid() bool {
@@ -115,6 +131,33 @@ func (x *vfPayloadX) invalid() bool {
 	}
 	for _, l := range x.stack {
 		bad = vfOr(bad, !vfValidLabel(l))
+	}
+	for i := range x.eh {
+		h := &x.eh[i]
+		for _, l := range h.labels {
+			bad = vfOr(bad, !vfValidLabel(l))
+		}
+		if h.hasTC {
+			bad = vfOr(bad, h.tc > 7)
+		}
+		if h.hasDSCP {
+			bad = vfOr(bad, h.dscp > 63)
+		}
+		if h.hasDPort {
+			bad = vfOr(bad, h.dport > 0xffff)
+		}
+		if h.hasSPort {
+			bad = vfOr(bad, h.sport > 0xffff)
+		}
+		if h.hasTTL {
+			bad = vfOr(bad, h.ttl > 0xff)
+		}
+		if h.hasSIP {
+			bad = vfOr(bad, !vfValidIP(h.sip))
+		}
+		if h.hasDIP {
+			bad = vfOr(bad, !vfValidIP(h.dip))
+		}
 	}
 	return bad
 }
@@ -208,6 +251,21 @@ func (d *vfOpD) proto() *spb.AFTOperation {
 				}
 				for _, l := range x.stack {
 					k.NextHop.PushedMplsLabelStack = append(k.NextHop.PushedMplsLabelStack, &aftpb.Afts_NextHop_PushedMplsLabelStackUnion{PushedMplsLabelStackUint64: l})
+				}
+				for i := range x.eh {
+					h := &x.eh[i]
+					ph := &aftpb.Afts_NextHop_EncapHeader{Type: enums.OpenconfigAftTypesEncapsulationHeaderType(h.typ)}
+					if len(h.labels) != 0 || h.hasTC {
+						ph.Mpls = &aftpb.Afts_NextHop_EncapHeader_Mpls{TrafficClass: u(h.hasTC, h.tc)}
+						for _, l := range h.labels {
+							ph.Mpls.MplsLabelStack = append(ph.Mpls.MplsLabelStack, &aftpb.Afts_NextHop_EncapHeader_Mpls_MplsLabelStackUnion{MplsLabelStackUint64: l})
+						}
+					}
+					if h.isUDP() {
+						ph.UdpV6 = &aftpb.Afts_NextHop_EncapHeader_UdpV6{Dscp: u(h.hasDSCP, h.dscp), DstUdpPort: u(h.hasDPort, h.dport), SrcUdpPort: u(h.hasSPort, h.sport),
+							IpTtl: u(h.hasTTL, h.ttl), SrcIp: s(h.hasSIP, h.sip), DstIp: s(h.hasDIP, h.dip)}
+					}
+					k.NextHop.EncapHeader = append(k.NextHop.EncapHeader, &aftpb.Afts_NextHop_EncapHeaderKey{Index: h.idx, EncapHeader: ph})
 				}
 			}
 		}
@@ -552,6 +610,18 @@ func (r *vfRef) check(d *vfOpD, a vfAnswer) {
 			failedHeld = append(failedHeld, id)
 		}
 	}
+	// a held operation that failed is judged against EVERY state the call went through (the pre-state and the
+	// state after each acknowledgement): e.g. a held REPLACE fails legitimately while its key is absent even if
+	// another held operation re-creates the key later in the same cascade
+	legitAtSomePoint := map[uint64]bool{}
+	noteFailedHeld := func() {
+		for _, id := range failedHeld {
+			if x := r.held[id]; x != nil {
+				legitAtSomePoint[id] = vfOr(legitAtSomePoint[id], r.legitFail(x))
+			}
+		}
+	}
+	noteFailedHeld()
 	seen := map[uint64]bool{}
 	for _, id := range a.oks {
 		x := lookup(id)
@@ -570,8 +640,13 @@ func (r *vfRef) check(d *vfOpD, a vfAnswer) {
 		} else {
 			vfAssert(r.legitOK(x), "C02:acked-only-when-valid-and-resolvable")
 		}
+		if x.typ == vfREPLACE {
+			// the fold of C01 defines REPLACE only on an existing entry: an acknowledged REPLACE never creates one
+			vfAssert(r.exists(x), "C01:replace-acknowledged-only-for-an-existing-entry")
+		}
 		r.apply(x)
 		delete(r.held, id)
+		noteFailedHeld()
 	}
 	for _, id := range failedHeld {
 		x := r.held[id]
@@ -579,7 +654,7 @@ func (r *vfRef) check(d *vfOpD, a vfAnswer) {
 			continue
 		}
 		// a held operation may fail once the state makes it unfulfillable (e.g. REPLACE of a key since deleted)
-		vfAssert(r.legitFail(x), "C02:held-operation-failed-only-if-unfulfillable")
+		vfAssert(legitAtSomePoint[id], "C02:held-operation-failed-only-if-unfulfillable")
 		delete(r.held, id)
 	}
 	if !failedSelf && !seen[d.id] {
@@ -768,6 +843,45 @@ func vfEqNHX(e *aft.Afts_NextHop, x *vfPayloadX) bool {
 	} else {
 		ok = vfAnd(ok, vfAnd(vfEqStrp(e.IpInIp.SrcIp, x.hasSrc, x.src), vfEqStrp(e.IpInIp.DstIp, x.hasDst, x.dst)))
 	}
+	if len(e.EncapHeader) != len(x.eh) {
+		return false
+	}
+	for i := range x.eh {
+		h := &x.eh[i]
+		g := e.EncapHeader[uint8(h.idx)]
+		if g == nil || g.Index == nil || uint64(*g.Index) != h.idx {
+			return false
+		}
+		ok = vfAnd(ok, int64(g.Type) == int64(h.typ))
+		if g.Mpls == nil {
+			if len(h.labels) != 0 || h.hasTC {
+				return false
+			}
+		} else {
+			if len(g.Mpls.MplsLabelStack) != len(h.labels) {
+				return false
+			}
+			for j, l := range g.Mpls.MplsLabelStack {
+				u, isNum := l.(aft.UnionUint32)
+				if !isNum {
+					return false
+				}
+				ok = vfAnd(ok, uint64(u) == h.labels[j])
+			}
+			ok = vfAnd(ok, vfEqU8p(g.Mpls.TrafficClass, h.hasTC, h.tc))
+		}
+		if g.UdpV6 == nil {
+			if h.isUDP() {
+				return false
+			}
+		} else {
+			v := g.UdpV6
+			ok = vfAnd(ok, vfAnd(vfAnd(vfEqU8p(v.Dscp, h.hasDSCP, h.dscp), vfEqU8p(v.IpTtl, h.hasTTL, h.ttl)),
+				vfAnd(vfEqU16p(v.DstUdpPort, h.hasDPort, h.dport), vfEqU16p(v.SrcUdpPort, h.hasSPort, h.sport))))
+			ok = vfAnd(ok, vfAnd(vfEqStrp(v.SrcIp, h.hasSIP, h.sip), vfEqStrp(v.DstIp, h.hasDIP, h.dip)))
+		}
+		ok = vfAnd(ok, g.Gre == nil && g.Ipv4 == nil && g.Ipv6 == nil && g.UdpV4 == nil)
+	}
 	if len(e.PushedMplsLabelStack) != len(x.stack) {
 		return false
 	}
@@ -779,6 +893,20 @@ func vfEqNHX(e *aft.Afts_NextHop, x *vfPayloadX) bool {
 		ok = vfAnd(ok, uint64(u) == x.stack[i])
 	}
 	return ok
+}
+
+func vfEqU8p(p *uint8, has bool, v uint64) bool {
+	if p == nil {
+		return !has
+	}
+	return vfAnd(has, uint64(*p) == v)
+}
+
+func vfEqU16p(p *uint16, has bool, v uint64) bool {
+	if p == nil {
+		return !has
+	}
+	return vfAnd(has, uint64(*p) == v)
 }
 
 func vfEqSVp(p *wpb.StringValue, has bool, v string) bool {
@@ -809,7 +937,36 @@ func vfEqNHXProto(b *aftpb.Afts_NextHop, x *vfPayloadX) bool {
 	for i, l := range b.GetPushedMplsLabelStack() {
 		ok = vfAnd(ok, vfAnd(l.GetPushedMplsLabelStackUint64() == x.stack[i], l.GetPushedMplsLabelStackOpenconfigmplstypesmplslabelenum() == 0))
 	}
-	ok = vfAnd(ok, vfAnd(b.GetGre() == nil, vfAnd(len(b.GetEncapHeader()) == 0, vfAnd(b.GetTunnelSrcIpAddress() == nil, b.GetVniLabel() == nil))))
+	if len(b.GetEncapHeader()) != len(x.eh) {
+		return false
+	}
+	for _, hk := range b.GetEncapHeader() {
+		// Get emits the headers in the order of a Go map walk: matched by index
+		var h *vfEncapD
+		for i := range x.eh {
+			if x.eh[i].idx == hk.GetIndex() {
+				h = &x.eh[i]
+			}
+		}
+		if h == nil {
+			return false
+		}
+		g := hk.GetEncapHeader()
+		ok = vfAnd(ok, int32(g.GetType()) == h.typ)
+		if len(g.GetMpls().GetMplsLabelStack()) != len(h.labels) {
+			return false
+		}
+		for j, l := range g.GetMpls().GetMplsLabelStack() {
+			ok = vfAnd(ok, vfAnd(l.GetMplsLabelStackUint64() == h.labels[j], l.GetMplsLabelStackOpenconfigmplstypesmplslabelenum() == 0))
+		}
+		ok = vfAnd(ok, vfEqUVp(g.GetMpls().GetTrafficClass(), h.hasTC, h.tc))
+		v := g.GetUdpV6()
+		ok = vfAnd(ok, vfAnd(vfAnd(vfEqUVp(v.GetDscp(), h.hasDSCP, h.dscp), vfEqUVp(v.GetIpTtl(), h.hasTTL, h.ttl)),
+			vfAnd(vfEqUVp(v.GetDstUdpPort(), h.hasDPort, h.dport), vfEqUVp(v.GetSrcUdpPort(), h.hasSPort, h.sport))))
+		ok = vfAnd(ok, vfAnd(vfEqSVp(v.GetSrcIp(), h.hasSIP, h.sip), vfEqSVp(v.GetDstIp(), h.hasDIP, h.dip)))
+		ok = vfAnd(ok, g.GetGre() == nil && g.GetIpv4() == nil && g.GetIpv6() == nil && g.GetUdpV4() == nil)
+	}
+	ok = vfAnd(ok, vfAnd(b.GetGre() == nil, vfAnd(b.GetTunnelSrcIpAddress() == nil, b.GetVniLabel() == nil)))
 	return ok
 }
 
